@@ -1048,8 +1048,8 @@ fn tenant_map_removed() -> bool {
     use kyrodb_engine::proto::kyro_db_service_client::KyroDbServiceClient;
     use kyrodb_engine::proto::{InsertRequest, QueryRequest};
     use std::time::{Duration, Instant};
-    const KEY_Z: &str = "kyro_tenant_z_zzzzzzzzzzzzzzzzzzzzzzzzzzzzzzzz";
-    const KEY_A: &str = "kyro_tenant_a_aaaaaaaaaaaaaaaaaaaaaaaaaaaaaaaa";
+    const KEY_Z: &str = "kyro_zeta_cccccccccccccccccccccccccccccccc";
+    const KEY_A: &str = "kyro_alpha_aaaaaaaaaaaaaaaaaaaaaaaaaaaaaaaa";
     let bin = c10_server_binary();
     let tmp = tempfile::tempdir().unwrap();
     let data_dir = tmp.path().join("data");
@@ -1102,7 +1102,7 @@ fn tenant_map_removed() -> bool {
     let (port, http_port) = (c10_port(), c10_port());
     let mut server = spawn(port, http_port);
     rt.block_on(async {
-        let mut client = connect(&mut server, format!("http://127.0.0.1:{port}")).await.expect("run 1");
+        let mut client = match connect(&mut server, format!("http://127.0.0.1:{port}")).await { Some(c) => c, None => { eprintln!("run 1 did not start:\n{}", std::fs::read_to_string(&logp).unwrap_or_default().lines().rev().take(15).collect::<Vec<_>>().join("\n")); panic!("run 1") } };
         let r = client.insert(c10_keyed(KEY_Z, InsertRequest { doc_id: 1, embedding: c10_vec(1.0, 0.5), metadata: HashMap::new(), namespace: String::new() })).await.expect("insert rpc");
         assert!(r.get_ref().success, "insert failed: {}", r.get_ref().error);
     });
@@ -1112,7 +1112,7 @@ fn tenant_map_removed() -> bool {
     let (port, http_port) = (c10_port(), c10_port());
     let mut server = spawn(port, http_port);
     let a_sees_before = rt.block_on(async {
-        let mut client = connect(&mut server, format!("http://127.0.0.1:{port}")).await.expect("run 2");
+        let mut client = match connect(&mut server, format!("http://127.0.0.1:{port}")).await { Some(c) => c, None => { eprintln!("run 2 did not start:\n{}", std::fs::read_to_string(&logp).unwrap_or_default().lines().rev().take(15).collect::<Vec<_>>().join("\n")); panic!("run 2") } };
         client.query(c10_keyed(KEY_A, QueryRequest { doc_id: 1, include_embedding: false, namespace: String::new() })).await.expect("query rpc").get_ref().found
     });
     stop(server);
